@@ -502,6 +502,10 @@ func run(c *core.Case) {
 		if raw := wire[els[0].Offset:els[0].End]; rec.Form != "decoder" && bytes.Contains(raw, []byte("_xmlns")) {
 			c.Violate("wire:"+rec.Entry+":altered:pseudo-namespace-attr", "%s(%s) marker %s: the element on the wire carries attributes in the pseudo namespace \"xmlns\" that the argument does not have: %q", rec.Entry, rec.Form, rec.Marker, trunc(string(raw)))
 		}
+		if a := xmltree.DuplicateAttr(wire[els[0].Offset:els[0].End]); a != "" {
+			c.Violate("wire:"+rec.Entry+":malformed:duplicate-attribute", "%s(%s) marker %s: a start tag on the wire carries the attribute %s twice: %q", rec.Entry, rec.Form, rec.Marker, a, trunc(string(wire[els[0].Offset:els[0].End])))
+			continue
+		}
 		if what, d := compare(rec, els[0], streamNS, o.S2S, local); what != "" {
 			c.Violate("wire:"+rec.Entry+":"+what, "%s(%s) marker %s: %s\n  want %s\n  got  %s", rec.Entry, rec.Form, rec.Marker, d, trunc(rec.want.String()), trunc(els[0].String()))
 		}
